@@ -37,6 +37,25 @@ def generate(seed, tier="quick"):
     prof.special = [s for s in prof.special if s != "norepr"]
     prog = W.gen_program(rng, prof, {"prev": PREV, "n_sites": (1, 6), "n_tests": (1, 3), "styles": ["assert", "assert", "rec"],
                                      "raise_events": 0.15, "hand": 0.4})
+    drng = sub(seed, "dictedit")
+    if drng.random() < 0.35:
+        # a dict / constructor call where one entry is renamed (delete + insert at the same place) and another entry is
+        # inserted right behind it, bare or nested in a list: adjacent insert positions around a deleted element
+        f = prog["files"][0]
+        keys = drng.sample(["a", "b", "c", "d", "e"], drng.randint(3, 4))
+        old_items = [[["str", k], ["int", i]] for i, k in enumerate(keys)]
+        i = drng.randrange(len(old_items) - 1)
+        new_items = [list(x) for x in old_items]
+        new_items[i] = [["str", "x" + keys[i]], ["int", 10]]
+        new_items.insert(i + 1, [["str", "y"], ["int", 11]])
+        if drng.random() < 0.3:
+            new_items.insert(i + 3 if i + 3 <= len(new_items) else len(new_items), [["str", "z"], ["int", 12]])
+        oldv, newv = ["dict", old_items], ["dict", new_items]
+        if drng.random() < 0.4:
+            oldv, newv = ["list", [["int", 0], oldv]], ["list", [["int", 0], newv]]
+        n = len(f["sites"])
+        f["sites"][f"d{n}"] = {"op": "eq", "place": drng.choice(["direct", "func"]), "arg": V.expr(oldv), "prev": oldv}
+        drng.choice(f["tests"])["events"].append({"t": "cmp", "eid": f"ed{n}", "site": f"d{n}", "vals": [newv], "style": drng.choice(["assert", "rec"])})
     mrng = sub(seed, "mutation")
     if mrng.random() < 0.15:
         W.add_mutation_test(mrng, prog["files"][0], style=mrng.choice(["rec", "assert"]), prev=True)
